@@ -58,7 +58,7 @@ WlPodHash(s) ==
 EmptySub(ro) == [ro EXCEPT !.hasSub = FALSE, !.step = 0, !.state = "", !.next = 0, !.fstep = "", !.hashOk = FALSE,
                            !.hashSet = FALSE, !.canaryRev = 0, !.stableRev = 0, !.podHash = 0, !.fresh = FALSE, !.rid = ""]
 
-GoneRo == [exists |-> FALSE, deleting |-> FALSE, finalizer |-> FALSE, condFresh |-> FALSE, hasSub |-> FALSE, hashOk |-> FALSE,
+GoneRo == [exists |-> FALSE, bg |-> FALSE, deleting |-> FALSE, finalizer |-> FALSE, condFresh |-> FALSE, hasSub |-> FALSE, hashOk |-> FALSE,
            hashSet |-> FALSE, fresh |-> FALSE, phase |-> "", reason |-> "", treason |-> "", succeeded |-> "", state |-> "",
            fstep |-> "", rid |-> "", aux |-> "", step |-> 0, next |-> 0, canaryRev |-> 0, stableRev |-> 0, podHash |-> 0,
            thrKind |-> "none", thrVal |-> 0]
@@ -327,7 +327,9 @@ FinalizeTR(s) ==
 
 DoFinalising(sIn, reason, waitReady) ==
   LET s0 == FinalizeTR(sIn) IN
-  IF ~s0.ro.hasSub THEN [s |-> s0, done |-> TRUE]
+  \* the release manager is chosen by the strategy in the SPEC; after a switch of the strategy while idle the blue-green
+  \* manager finds no blue-green status and has nothing to finalise
+  IF ~s0.ro.hasSub \/ (s0.ro.bg /\ ~IsBlueGreen(s0)) THEN [s |-> s0, done |-> TRUE]
   ELSE
   LET s1 == IF s0.wl.exists /\ s0.wl.inprog /\ s0.wl.genOk THEN [s0 EXCEPT !.wl.inprog = FALSE] ELSE s0   \* removeRolloutProgressingAnnotation
       nx == IF IsBlueGreen(s1) THEN NextTaskIn(BgTaskSeq(reason), s1.ro.fstep) ELSE NextTask(reason, s1.ro.fstep)
@@ -878,6 +880,7 @@ UserSet(s, a) ==
     [] a = "user.rollback" -> {[Release(s, 1) EXCEPT !.user.rolledBack = TRUE]}
     [] a = "user.scale"    -> {DepDerive([s EXCEPT !.wl.R = r, !.wl.genOk = FALSE]) : r \in (1..12) \ {s.wl.R}}
     [] a \in JumpActs -> {[s EXCEPT !.ro.next = JumpTargetOf(a)]}
+    [] a = "user.switchstyle" -> {[s EXCEPT !.ro.bg = TRUE]}
     [] a = "user.trdelete" -> {IF ~s.tr.exists THEN s
                                ELSE IF s.tr.finalizer \/ s.tr.prog > 0 THEN [s EXCEPT !.tr.deleting = TRUE, !.tr.obsOk = s.tr.obsOk]
                                ELSE [s EXCEPT !.tr = GoneTr]}
@@ -885,7 +888,7 @@ UserSet(s, a) ==
 
 \* ------------------------------------------------------------ the step function
 UserActs == {"user.approve", "user.pause", "user.resume", "user.disable", "user.enable", "user.delete", "user.deleteidle", "user.release2", "user.release3late",
-             "user.release3", "user.rollback", "user.scale"} \cup JumpActs
+             "user.release3", "user.rollback", "user.scale", "user.switchstyle"} \cup JumpActs
 EnvActs  == {"env.observe", "env.update", "env.ready", "env.unready", "env.scale"}
 
 ModelledPartition(p, a) ==
